@@ -63,6 +63,22 @@ def setInsert (s : List Nat) (x : Nat) : List Nat := if s.contains x then s else
 /-- `HashSet::remove` on the list model of a set -/
 def setRemove (s : List Nat) (x : Nat) : List Nat := s.filter (fun j => !(j == x))
 
+/-- result of `slice::binary_search_by`: `Ok(i)` (found at `i`) or `Err(i)` (insertion point `i`) -/
+inductive SearchRes where
+  | found (i : Nat)
+  | insert (i : Nat)
+deriving Repr, DecidableEq
+
+/-- `xs.binary_search_by(|a| a.partial_cmp(&x).unwrap())` on an ascending list, by its contract: with
+    `k` the number of elements below `x`, found at `k` when `xs[k]` is not above `x`, else insertion
+    point `k`.  (Of several equal elements the standard library may return any; the model returns the
+    first — the lists searched here are strictly ascending wherever that matters.) -/
+def binarySearch {β : Type} [LT β] [DecidableLT β] (xs : List β) (x : β) : SearchRes :=
+  let k := (xs.takeWhile (fun v => decide (v < x))).length
+  match xs[k]? with
+  | some v => if x < v then .insert k else .found k
+  | none => .insert k
+
 /-- Rust `iter().enumerate()`: (position, element) pairs -/
 def enumerateL {β : Type} (xs : List β) : List (Nat × β) := xs.zipIdx.map (fun p => (p.2, p.1))
 
